@@ -283,6 +283,32 @@ pub fn run_case(case: &Case, names: &HashMap<String, u16>) {
                         }
                     }
                 }
+                "m" => {
+                    // one iteration of the processing loop that covers n milliseconds (the loop was late)
+                    let n: u16 = rest.parse().unwrap();
+                    let mut blocked = false;
+                    if let Some(honour) = loop_mode {
+                        if iter_open {
+                            iter_open = false;
+                        } else {
+                            let can_block = k.can_block_update_idle_waiting(n);
+                            blocked = can_block && honour;
+                        }
+                    }
+                    tick += n as u64;
+                    if !blocked {
+                        k.tick_ms(n as u128, &None).expect("tick_ms");
+                        for ev in k.kbd_out.outputs.events.drain(..) {
+                            if let Some(c) = canon_event(&ev, names) {
+                                pending.push(c);
+                            }
+                        }
+                        if !pending.is_empty() {
+                            writeln!(o, "@{} {}", tick, pending.join(" ")).unwrap();
+                            pending.clear();
+                        }
+                    }
+                }
                 _ => panic!("bad history token {tok}"),
             }
         }
